@@ -668,27 +668,38 @@ theorem expected_empty_iff (r : Routes) (held : Roa → Bool) (u : RoaUpdates) :
 
 theorem baseline_get? (r : Routes) (removed : List Roa) (p : Roa) :
     (Spec.baseline r removed).get? p = if removed.contains p then none else r.get? p := by
-  unfold Spec.baseline Routes.get?
-  induction r with
-  | nil => simp
-  | cons e rest ih =>
-    simp only [List.filter_cons]
-    by_cases he : (e.1 == p) = true
-    · have hep : e.1 = p := by simpa using he
-      by_cases hr : removed.contains e.1 = true
-      · have hrp : removed.contains p = true := by rw [← hep]; exact hr
-        simp only [hr, Bool.not_true, Bool.false_eq_true, if_false]
-        rw [ih]; simp [hrp]
-      · have hr' : removed.contains e.1 = false := by simpa using hr
-        have hrp : removed.contains p = false := by rw [← hep]; exact hr'
-        simp [hr', List.find?_cons, he, hrp]
-    · have he' : (e.1 == p) = false := by simpa using he
-      by_cases hr : removed.contains e.1 = true
-      · simp only [hr, Bool.not_true, Bool.false_eq_true, if_false]
-        rw [ih]; simp [List.find?_cons, he']
-      · have hr' : removed.contains e.1 = false := by simpa using hr
-        simp only [hr', Bool.not_false, if_true, List.find?_cons, he']
+  by_cases hm : p ∈ removed
+  · have hc : removed.contains p = true := by simpa using hm
+    rw [hc]
+    simp only [if_true]
+    have : (Spec.baseline r removed).has p = false := by
+      rw [Spec.baseline_has, hc]; simp
+    rw [Routes.has_eq_isSome] at this
+    cases hg : (Spec.baseline r removed).get? p with
+    | none => rfl
+    | some c => rw [hg] at this; cases this
+  · have hc : removed.contains p = false := by simpa using hm
+    rw [hc]
+    simp only [Bool.false_eq_true, if_false]
+    unfold Spec.baseline Routes.get?
+    induction r with
+    | nil => rfl
+    | cons e rest ih =>
+      rw [List.filter_cons]
+      cases hr : removed.contains e.1 with
+      | true =>
+        have hne : (e.1 == p) = false := by
+          apply Bool.eq_false_iff.mpr
+          intro h
+          have : e.1 = p := by simpa using h
+          rw [this, hc] at hr; cases hr
+        simp only [Bool.not_true, Bool.false_eq_true, if_false, List.find?_cons, hne]
         exact ih
+      | false =>
+        simp only [Bool.not_false, if_true, List.find?_cons]
+        cases he : (e.1 == p) with
+        | true => rfl
+        | false => exact ih
 
 /-- A request in configuration `r`: accepted – the new view is `viewStep` of the old one;
 refused – nothing changes. -/
@@ -1166,6 +1177,148 @@ theorem aspaAddFold_applied (s : AspaDefs) (holdsAsn : Nat → Bool)
                     List.mem_filter.mpr ⟨hp, by simpa using hn⟩
                   rw [he.1] at this; cases this
               · simp only [hc, if_false]; exact hI1 c
+
+/-! ### Customers after an ASPA update -/
+
+theorem AspaDefs.has_eq_isSome (s : AspaDefs) (c : Nat) : s.has c = (s.get? c).isSome := by
+  unfold AspaDefs.has AspaDefs.get?
+  induction s with
+  | nil => rfl
+  | cons e rest ih =>
+    cases h : (e.customer == c) with
+    | true => simp [List.any_cons, List.find?_cons, h]
+    | false => simp only [List.any_cons, List.find?_cons, h, Bool.false_or]; exact ih
+
+theorem AspaDefs.has_addOrReplace (s : AspaDefs) (x : AspaDef) (c : Nat) :
+    (s.addOrReplace x).has c = (if c = x.customer then true else s.has c) := by
+  rw [AspaDefs.has_eq_isSome, AspaDefs.get?_addOrReplace, AspaDefs.has_eq_isSome]
+  split <;> rfl
+
+theorem sameProviders_isSome {a b : Option AspaDef} (h : SameProviders a b) : a.isSome = b.isSome := by
+  cases a <;> cases b <;> simp_all [SameProviders]
+
+/-- Customers of the running copy after the addition loop were there before or are listed. -/
+theorem aspaAddFold_has (holdsAsn : Nat → Bool) (adds : List AspaDef)
+    (acc acc' : AspaDefs × List AspaEv) (h : foldlE (aspaAddStep holdsAsn) acc adds = .ok acc') (c : Nat)
+    (hc : acc'.1.has c = true) : acc.1.has c = true ∨ ∃ d ∈ adds, d.customer = c := by
+  induction adds generalizing acc with
+  | nil => simp [foldlE] at h; subst h; exact Or.inl hc
+  | cons d rest ih =>
+    unfold foldlE at h
+    cases hs : aspaAddStep holdsAsn acc d with
+    | error e => rw [hs] at h; cases h
+    | ok a1 =>
+      rw [hs] at h
+      simp only at h
+      have h1 : a1.1 = acc.1.addOrReplace d := by
+        unfold aspaAddStep at hs
+        split at hs
+        · cases hs
+        · split at hs
+          · simp only [Except.ok.injEq] at hs; rw [← hs]
+          · simp only at hs
+            split at hs <;> (simp only [Except.ok.injEq] at hs; rw [← hs])
+      rcases ih a1 h with h2 | ⟨x, hx, hxc⟩
+      · rw [h1, AspaDefs.has_addOrReplace] at h2
+        by_cases hcd : c = d.customer
+        · exact Or.inr ⟨d, List.mem_cons_self, hcd.symm⟩
+        · simp only [hcd, if_false] at h2; exact Or.inl h2
+      · exact Or.inr ⟨x, List.mem_cons_of_mem _ hx, hxc⟩
+
+/-! ### Router keys: events and keys after an update -/
+
+namespace BgpsecDefs
+
+theorem has_remove' (s : BgpsecDefs) (k j : BgpsecKey) :
+    (s.remove k).has j = true → s.has j = true := by
+  unfold remove has
+  simp only [List.any_eq_true, List.mem_filter]
+  rintro ⟨e, ⟨he, _⟩, hj⟩; exact ⟨e, he, hj⟩
+
+theorem has_addOrReplace' (s : BgpsecDefs) (k j : BgpsecKey) (c : StoredCsr) :
+    (s.addOrReplace k c).has j = true → j = k ∨ s.has j = true := by
+  unfold addOrReplace
+  intro h
+  unfold has at h
+  rw [List.any_cons] at h
+  simp only [Bool.or_eq_true, beq_iff_eq] at h
+  rcases h with h | h
+  · exact Or.inl h.symm
+  · exact Or.inr (has_remove' s k j h)
+
+end BgpsecDefs
+
+theorem applyBgpsecEvs_snoc (s : BgpsecDefs) (evs : List BgpsecEv) (e : BgpsecEv) :
+    applyBgpsecEvs s (evs ++ [e]) = applyBgpsecEv (applyBgpsecEvs s evs) e := by
+  unfold applyBgpsecEvs; rw [List.foldl_append]; rfl
+
+theorem bgpsecRemoveFold_applied (s : BgpsecDefs) (rest : List BgpsecKey)
+    (acc acc' : BgpsecDefs × List BgpsecEv)
+    (ha : applyBgpsecEvs s acc.2 = acc.1) (h : foldlE' bgpsecRemoveStep acc rest = .ok acc') :
+    applyBgpsecEvs s acc'.2 = acc'.1 ∧ (∀ j, acc'.1.has j = true → acc.1.has j = true) := by
+  induction rest generalizing acc with
+  | nil => simp [foldlE'] at h; subst h; exact ⟨ha, fun _ h => h⟩
+  | cons c rest ih =>
+    unfold foldlE' at h
+    cases hs : bgpsecRemoveStep acc c with
+    | error e => rw [hs] at h; cases h
+    | ok a1 =>
+      rw [hs] at h
+      simp only at h
+      unfold bgpsecRemoveStep at hs
+      split at hs
+      · cases hs
+      · simp only [Except.ok.injEq] at hs
+        subst hs
+        obtain ⟨g1, g2⟩ := ih _ (by simp only; rw [applyBgpsecEvs_snoc, ha]; rfl) h
+        exact ⟨g1, fun j hj => BgpsecDefs.has_remove' _ c j (g2 j hj)⟩
+
+theorem bgpsecAddFold_applied (s : BgpsecDefs) (holdsAsn : Nat → Bool) (adds : List BgpsecDef)
+    (acc acc' : BgpsecDefs × List BgpsecEv × Nat)
+    (ha : applyBgpsecEvs s acc.2.1 = acc.1) (h : foldlE' (bgpsecAddStep holdsAsn) acc adds = .ok acc') :
+    applyBgpsecEvs s acc'.2.1 = acc'.1 ∧
+      (∀ j, acc'.1.has j = true → acc.1.has j = true ∨ ∃ d ∈ adds, (⟨d.asn, d.key⟩ : BgpsecKey) = j) := by
+  induction adds generalizing acc with
+  | nil => simp [foldlE'] at h; subst h; exact ⟨ha, fun _ h => Or.inl h⟩
+  | cons d rest ih =>
+    unfold foldlE' at h
+    cases hs : bgpsecAddStep holdsAsn acc d with
+    | error e => rw [hs] at h; cases h
+    | ok a1 =>
+      rw [hs] at h
+      simp only at h
+      have key : applyBgpsecEvs s a1.2.1 = a1.1 ∧
+          (∀ j, a1.1.has j = true → acc.1.has j = true ∨ (⟨d.asn, d.key⟩ : BgpsecKey) = j) := by
+        unfold bgpsecAddStep at hs
+        split at hs
+        · cases hs
+        · simp only at hs
+          split at hs
+          · cases hs
+          · split at hs
+            · split at hs
+              · simp only [Except.ok.injEq] at hs; subst hs
+                refine ⟨by simp only; rw [applyBgpsecEvs_snoc, ha]; rfl, ?_⟩
+                intro j hj
+                rcases BgpsecDefs.has_addOrReplace' _ _ j _ hj with h1 | h1
+                · exact Or.inr h1.symm
+                · exact Or.inl h1
+              · simp only [Except.ok.injEq] at hs; subst hs
+                exact ⟨ha, fun j hj => Or.inl hj⟩
+            · simp only [Except.ok.injEq] at hs; subst hs
+              refine ⟨by simp only; rw [applyBgpsecEvs_snoc, ha]; rfl, ?_⟩
+              intro j hj
+              rcases BgpsecDefs.has_addOrReplace' _ _ j _ hj with h1 | h1
+              · exact Or.inr h1.symm
+              · exact Or.inl h1
+      obtain ⟨g1, g2⟩ := ih a1 key.1 h
+      refine ⟨g1, ?_⟩
+      intro j hj
+      rcases g2 j hj with h1 | ⟨x, hx, hxj⟩
+      · rcases key.2 j h1 with h2 | h2
+        · exact Or.inl h2
+        · exact Or.inr ⟨d, List.mem_cons_self, h2⟩
+      · exact Or.inr ⟨x, List.mem_cons_of_mem _ hx, hxj⟩
 
 /-! ## BGPsec -/
 
